@@ -11,7 +11,7 @@ pub struct Parsed {
     pub ok: bool,
     pub has_section: bool,
     pub n_members: usize,
-    pub members: [[u8; MEM]; 3],
+    pub members: [[u8; MEM]; 4],
     pub n_items: usize,
     pub items: [([u8; ITEM], usize); 3],
 }
@@ -21,7 +21,7 @@ pub fn parse_datagram(d: &[u8; PKT], len: usize, piggybacks: bool, may_items: bo
         ok: false,
         has_section: false,
         n_members: 0,
-        members: [[0; MEM]; 3],
+        members: [[0; MEM]; 4],
         n_items: 0,
         items: [([0; ITEM], 0); 3],
     };
@@ -36,7 +36,7 @@ pub fn parse_datagram(d: &[u8; PKT], len: usize, piggybacks: bool, may_items: bo
         let has_section = sec == 1;
         if !has_section || piggybacks {
             let mut nm = 0;
-            while nm < 3 {
+            while nm < 4 {
                 if has_section || nm == 0 {
                     let mut ni = 0;
                     while ni < 3 {
@@ -187,7 +187,7 @@ fn send_obligation<S: Src>(s: &mut S, class: u8, pkt: usize, k: usize, backlog: 
 
     // member section contents
     let mut i = 0;
-    while i < 3 {
+    while i < 4 {
         if i < p.n_members {
             let m = p.members[i];
             let id = Id::new(m[0], m[1]);
@@ -279,7 +279,24 @@ macro_rules! sh {
 }
 
 // piggybacking kinds: packet sizes around every boundary (header 10, count 2, member 5, item 2+3)
-sh!(c07_send_pb_9, 0, 9, 0, 1, 0, false);
+/// max_packet_size smaller than a header: error, nothing sent, buffer intact
+pub fn c07_send_pb_9<S: Src>(s: &mut S) {
+    let mut sh = Shape::k(0);
+    sh.pkt = 9;
+    sh.backlog = 1;
+    sh.probe = false;
+    let mut f = arb_foca(s, sh);
+    let pre = snap(&f);
+    let dst = Id::arb(s);
+    let msg = arb_piggyback_msg(s);
+    let mut rt = LogRt::new();
+    let r = f.send_message(dst, msg, &mut rt);
+    let post = snap(&f);
+    vassert!(matches!(r, Err(Error::Encode(_))) && rt.is_silent(), "c20: a header that does not fit is an error, nothing is sent");
+    vassert!(f.send_buf.capacity() == 9, "c06: the send buffer survives an encode error");
+    vassert!(post.identical(&pre), "c17: a failed send changes no protocol state");
+    vcover!(dst.addr != pre.identity.addr, "foreign destination");
+}
 sh!(c07_send_pb_10, 0, 10, 0, 1, 1, false);
 sh!(c07_send_pb_12, 0, 12, 0, 1, 1, false);
 sh!(c07_send_pb_13, 0, 13, 0, 1, 1, false);
